@@ -701,6 +701,8 @@ where
         let verif_table = unsafe { table.as_ptr() } as usize;
         if next_table_ptr.is_null() {
             // we are initiating a resize
+            #[cfg(feature = "verif")]
+            crate::verif::hit(crate::verif::EV_RESIZE_BEGIN, verif_table, n);
             let table = Shared::boxed(Table::new(n << 1, &self.collector), &self.collector);
             let now_garbage = self.next_table.swap(table, Ordering::SeqCst, guard);
             assert!(now_garbage.is_null());
